@@ -10,6 +10,6 @@ mkdir -p .build evidence replays
 ( cd kani && cargo kani --target-dir /verif/.build/kani --only-codegen 2>&1 | tail -3 ) || true
 if [ -d sym ]; then
   [ -f sym/Cargo.lock ] || cp /repo/Cargo.lock sym/Cargo.lock
-  ( cd sym && CARGO_TARGET_DIR=/verif/.build/sym cargo build --offline --release 2>&1 | tail -3 ) || true
+  ( cd sym && RUSTFLAGS="--cfg palette_verif" CARGO_TARGET_DIR=/verif/.build/sym cargo build --offline --release 2>&1 | tail -3 ) || true
 fi
 echo setup done
